@@ -68,6 +68,8 @@ func specCSSWhitespace(c byte) bool {
 
 //@ func prefixWithSpace
 //@   props C07 C06
+//@   pure
+//@   opt function yes
 //@   ensures (specIsHexDigit(c) || specCSSWhitespace(c)) ==> result
 
 // ---------------------------------------------------------------------------
@@ -98,11 +100,14 @@ func sub(s string, lo, hi int) bseq { return bseq(s[lo:hi]) }
 func lit(s string) bseq             { return bseq(s) }
 func eps() bseq                     { return "" }
 func wout(w any) bseq               { return "" }
+func fsplit(lo, mid, hi int) bool   { return true }
 
 func foldPieces(s string, lo, hi int, piece func(string, int) string) bseq {
 	var b []byte
 	for k := lo; k < hi; k++ {
-		if p := piece(s, k); p != "" {
+		if p := piece(s, k); p == "\x00" {
+			// the piece "\x00" stands for "nothing" (a byte consumed by an earlier piece)
+		} else if p != "" {
 			b = append(b, p...)
 		} else {
 			b = append(b, s[k])
@@ -146,16 +151,35 @@ func EscHTML(s string, lo, hi int) bseq { return foldPieces(s, lo, hi, specPiece
 //@   ensures[C13] result == nil ==> !wfailed(w)
 //@   ensures[C13] wonly(w)
 //@   ensures[C07] result == nil ==> wout(w) == cat(old(wout(w)), EscHTML(s, 0, len(s)))
-//@   hint last; len(s)
+//@   split 0, last, len(s)
 //@   loop 0
 //@     invariant 0 <= last && last <= i && i <= len(s)
 //@     invariant[C13] !wfailed(w) && wonly(w)
 //@     invariant[C07] wout(w) == cat(old(wout(w)), EscHTML(s, 0, last))
 //@     invariant[C07] EscHTML(s, last, i) == sub(s, last, i)
-//@     hint i; i+1; last
+//@     split 0, last, i+1; last, i, i+1
 //@     cases s[i] == '"'; s[i] == '\''; s[i] == '&'; s[i] == '<'; s[i] == '>'
 //@     cases last == i
 //@     decreases len(s) - i
+
+// As specPieceHTML but '&' is left alone (the value already contains character references).
+func specPieceHTMLNoEnt(s string, k int) string {
+	switch s[k] {
+	case '"':
+		return "&#34;"
+	case '\'':
+		return "&#39;"
+	case '<':
+		return "&lt;"
+	case '>':
+		return "&gt;"
+	}
+	return ""
+}
+
+func EscHTMLNoEnt(s string, lo, hi int) bseq { return foldPieces(s, lo, hi, specPieceHTMLNoEnt) }
+
+//@ fold EscHTMLNoEnt piece specPieceHTMLNoEnt
 
 //@ func htmlNoEntitiesEscape
 //@   props C05 C13 C07
@@ -164,10 +188,58 @@ func EscHTML(s string, lo, hi int) bseq { return foldPieces(s, lo, hi, specPiece
 //@   ensures[C13] result != nil ==> wfailed(w) && result == werr(w)
 //@   ensures[C13] result == nil ==> !wfailed(w)
 //@   ensures[C13] wonly(w)
+//@   ensures[C07] result == nil ==> wout(w) == cat(old(wout(w)), EscHTMLNoEnt(s, 0, len(s)))
+//@   split 0, last, len(s)
 //@   loop 0
 //@     invariant 0 <= last && last <= i && i <= len(s)
 //@     invariant[C13] !wfailed(w) && wonly(w)
+//@     invariant[C07] wout(w) == cat(old(wout(w)), EscHTMLNoEnt(s, 0, last))
+//@     invariant[C07] EscHTMLNoEnt(s, last, i) == sub(s, last, i)
+//@     split 0, last, i+1; last, i, i+1
+//@     cases s[i] == '"'; s[i] == '\''; s[i] == '<'; s[i] == '>'
+//@     cases last == i
 //@     decreases len(s) - i
+
+// Unquoted attribute values: in addition, the characters that would end the
+// value or start a new attribute (whitespace, quotes, '=', '`') become numeric
+// character references (https://html.spec.whatwg.org/#unquoted).
+func specPieceAttrU(s string, k int, ent bool) string {
+	switch s[k] {
+	case '<':
+		return "&lt;"
+	case '>':
+		return "&gt;"
+	case '&':
+		if ent {
+			return "&amp;"
+		}
+	case '\t':
+		return "&#09;"
+	case '\n':
+		return "&#10;"
+	case '\r':
+		return "&#13;"
+	case '\x0C':
+		return "&#12;"
+	case ' ':
+		return "&#32;"
+	case '"':
+		return "&#34;"
+	case '\'':
+		return "&#39;"
+	case '=':
+		return "&#61;"
+	case '`':
+		return "&#96;"
+	}
+	return ""
+}
+
+func EscAttrU(s string, lo, hi int, ent bool) bseq {
+	return foldPieces(s, lo, hi, func(s string, k int) string { return specPieceAttrU(s, k, ent) })
+}
+
+//@ fold EscAttrU piece specPieceAttrU
 
 //@ func attributeEscape
 //@   props C05 C13 C07
@@ -176,10 +248,45 @@ func EscHTML(s string, lo, hi int) bseq { return foldPieces(s, lo, hi, specPiece
 //@   ensures[C13] result != nil ==> wfailed(w) && result == werr(w)
 //@   ensures[C13] result == nil ==> !wfailed(w)
 //@   ensures[C13] wonly(w)
+//@   ensures[C07] result == nil && quoted && escapeEntities ==> wout(w) == cat(old(wout(w)), EscHTML(s, 0, len(s)))
+//@   ensures[C07] result == nil && quoted && !escapeEntities ==> wout(w) == cat(old(wout(w)), EscHTMLNoEnt(s, 0, len(s)))
+//@   ensures[C07] result == nil && !quoted ==> wout(w) == cat(old(wout(w)), EscAttrU(s, 0, len(s), escapeEntities))
+//@   split 0, last, len(s)
 //@   loop 0
 //@     invariant 0 <= last && last <= i && i <= len(s)
+//@     invariant !quoted
 //@     invariant[C13] !wfailed(w) && wonly(w)
+//@     invariant[C07] wout(w) == cat(old(wout(w)), EscAttrU(s, 0, last, escapeEntities))
+//@     invariant[C07] EscAttrU(s, last, i, escapeEntities) == sub(s, last, i)
+//@     split 0, last, i+1; last, i, i+1
+//@     cases s[i] == '<'; s[i] == '>'; s[i] == '&'; s[i] == '\t'; s[i] == '\n'; s[i] == '\r'; s[i] == '\x0C'; s[i] == ' '; s[i] == '"'; s[i] == '\''; s[i] == '='; s[i] == '`'
+//@     cases last == i
 //@     decreases len(s) - i
+
+// CSS strings: the listed bytes become a backslash escape (hexadecimal, or "\\"
+// for the backslash itself); a hexadecimal escape is followed by one space when it
+// ends the value or when the next byte is a hexadecimal digit or white space, so
+// that the next byte cannot be read as part of the escape
+// (https://www.w3.org/TR/css-syntax-3/#consume-escaped-code-point).
+//
+// Whether the separating space is needed is prefixWithSpace's decision; its own
+// contract says it is taken whenever the next byte is a hexadecimal digit or
+// white space, and lemmaCSSSeparated derives from it that an escape without a
+// separator is never followed by a byte the CSS tokenizer would add to it.
+func specPieceCSS(s string, k int) string {
+	c := s[k]
+	if int(c) >= len(cssStringEscapes) || cssStringEscapes[c] == "" {
+		return ""
+	}
+	if c != '\\' && (k == len(s)-1 || prefixWithSpace(s[k+1])) {
+		return cssStringEscapes[c] + " "
+	}
+	return cssStringEscapes[c]
+}
+
+func EscCSS(s string, lo, hi int) bseq { return foldPieces(s, lo, hi, specPieceCSS) }
+
+//@ fold EscCSS piece specPieceCSS
 
 //@ func cssStringEscape
 //@   props C05 C13 C07
@@ -188,9 +295,17 @@ func EscHTML(s string, lo, hi int) bseq { return foldPieces(s, lo, hi, specPiece
 //@   ensures[C13] result != nil ==> wfailed(w) && result == werr(w)
 //@   ensures[C13] result == nil ==> !wfailed(w)
 //@   ensures[C13] wonly(w)
+//@   ensures[C07] result == nil ==> wout(w) == cat(old(wout(w)), EscCSS(s, 0, len(s)))
+//@   split 0, last, len(s)
 //@   loop 0
 //@     invariant 0 <= last && last <= i && i <= len(s)
 //@     invariant[C13] !wfailed(w) && wonly(w)
+//@     invariant[C07] wout(w) == cat(old(wout(w)), EscCSS(s, 0, last))
+//@     invariant[C07] EscCSS(s, last, i) == sub(s, last, i)
+//@     split 0, last, i+1; last, i, i+1
+//@     cases int(s[i]) >= len(cssStringEscapes) || cssStringEscapes[s[i]] == ""
+//@     cases s[i] != '\\' && (i == len(s)-1 || prefixWithSpace(s[i+1]))
+//@     cases last == i
 //@     decreases len(s) - i
 
 //@ func jsStringEscape
@@ -212,18 +327,78 @@ func EscHTML(s string, lo, hi int) bseq { return foldPieces(s, lo, hi, specPiece
 //@   ensures[C13] result == nil ==> !wfailed(w)
 //@   ensures[C13] wonly(w)
 
+// URL paths inside attribute values: letters, digits and the path punctuation
+// below are kept, an existing well-formed %XX is kept, '&', '+' and (unquoted)
+// ' ' become character references, and every other byte is percent-encoded.
+func specPiecePath(s string, k int, quoted bool) string {
+	c := s[k]
+	if '0' <= c && c <= '9' || 'a' <= c && c <= 'z' || 'A' <= c && c <= 'Z' {
+		return ""
+	}
+	switch c {
+	case '!', '#', '$', '*', ',', '-', '.', '/', ':', ';', '=', '?', '@', '[', ']', '_', '~':
+		return ""
+	case '&':
+		return "&amp;"
+	case '+':
+		return "&#43;"
+	case ' ':
+		if quoted {
+			return ""
+		}
+		return "&#32;"
+	case '%':
+		if k+2 < len(s) && specIsHexDigit(s[k+1]) && specIsHexDigit(s[k+2]) {
+			return ""
+		}
+	}
+	return specPct(c)
+}
+
+func EscPath(s string, lo, hi int, quoted bool) bseq {
+	return foldPieces(s, lo, hi, func(s string, k int) string { return specPiecePath(s, k, quoted) })
+}
+
+//@ fold EscPath piece specPiecePath
+
 //@ func pathEscape
-//@   props C05 C13 C07
+//@   props C05 C13 C06
 //@   opt writerprop C13
 //@   requires !wfailed(w)
 //@   ensures[C13] result1 != nil ==> wfailed(w) && result1 == werr(w)
 //@   ensures[C13] result1 == nil ==> !wfailed(w)
 //@   ensures[C13] wonly(w)
+//@   ensures[C06] result1 == nil ==> wout(w) == cat(old(wout(w)), EscPath(s, 0, len(s), quoted))
+//@   split 0, last, len(s)
 //@   loop 0
 //@     invariant 0 <= last && last <= i && i <= len(s)
 //@     invariant[C13] !wfailed(w) && wonly(w)
-//@     invariant buf == nil || len(buf) == 3
+//@     invariant buf == nil || len(buf) == 3 && buf[0] == '%'
+//@     invariant[C06] wout(w) == cat(old(wout(w)), EscPath(s, 0, last, quoted))
+//@     invariant[C06] EscPath(s, last, i, quoted) == sub(s, last, i)
+//@     split 0, last, i+1; last, i, i+1
+//@     cases '0' <= s[i] && s[i] <= '9' || 'a' <= s[i] && s[i] <= 'z' || 'A' <= s[i] && s[i] <= 'Z'; s[i] == '&'; s[i] == '+'; s[i] == ' '; s[i] == '%'
+//@     cases last == i
 //@     decreases len(s) - i
+
+// URL query values: every byte except the ASCII letters, digits, '-', '.' and '_'
+// is percent-encoded (RFC 3986 section 2.1; '~' is also encoded, which percent
+// decoding undoes just the same).
+var specHexDigit = [16]string{"0", "1", "2", "3", "4", "5", "6", "7", "8", "9", "a", "b", "c", "d", "e", "f"}
+
+func specPct(c byte) string { return "%" + specHexDigit[c>>4] + specHexDigit[c&0xF] }
+
+func specPieceQuery(s string, k int) string {
+	c := s[k]
+	if '0' <= c && c <= '9' || 'a' <= c && c <= 'z' || 'A' <= c && c <= 'Z' || c == '-' || c == '.' || c == '_' {
+		return ""
+	}
+	return specPct(c)
+}
+
+func EscQuery(s string, lo, hi int) bseq { return foldPieces(s, lo, hi, specPieceQuery) }
+
+//@ fold EscQuery piece specPieceQuery
 
 //@ func queryEscape
 //@   props C05 C13 C07
@@ -232,10 +407,17 @@ func EscHTML(s string, lo, hi int) bseq { return foldPieces(s, lo, hi, specPiece
 //@   ensures[C13] result1 != nil ==> wfailed(w) && result1 == werr(w)
 //@   ensures[C13] result1 == nil ==> !wfailed(w)
 //@   ensures[C13] wonly(w)
+//@   ensures[C07] result1 == nil ==> wout(w) == cat(old(wout(w)), EscQuery(s, 0, len(s)))
+//@   split 0, last, len(s)
 //@   loop 0
 //@     invariant 0 <= last && last <= i && i <= len(s)
 //@     invariant[C13] !wfailed(w) && wonly(w)
-//@     invariant buf == nil || len(buf) == 3
+//@     invariant buf == nil || len(buf) == 3 && buf[0] == '%'
+//@     invariant[C07] wout(w) == cat(old(wout(w)), EscQuery(s, 0, last))
+//@     invariant[C07] EscQuery(s, last, i) == sub(s, last, i)
+//@     split 0, last, i+1; last, i, i+1
+//@     cases '0' <= s[i] && s[i] <= '9' || 'a' <= s[i] && s[i] <= 'z' || 'A' <= s[i] && s[i] <= 'Z' || s[i] == '-' || s[i] == '.' || s[i] == '_'
+//@     cases last == i
 //@     decreases len(s) - i
 
 //@ func isCDATA
@@ -248,6 +430,37 @@ func EscHTML(s string, lo, hi int) bseq { return foldPieces(s, lo, hi, specPiece
 //@   requires 0 <= p
 //@   ensures result ==> len(s) >= p+4
 
+// Indented code blocks: the text is copied, and every line break ("\n" or the
+// pair "\n\r") is followed by the block's indentation, so that no line of the
+// value can start outside the block (CommonMark 4.4).
+func specIndent(spaces bool) string {
+	if spaces {
+		return "    "
+	}
+	return "\t"
+}
+
+func specPieceMDCode(s string, k int, spaces bool) string {
+	switch s[k] {
+	case '\n':
+		if k+1 < len(s) && s[k+1] == '\r' {
+			return ""
+		}
+		return "\n" + specIndent(spaces)
+	case '\r':
+		if k > 0 && s[k-1] == '\n' {
+			return "\r" + specIndent(spaces)
+		}
+	}
+	return ""
+}
+
+func EscMDCode(s string, lo, hi int, spaces bool) bseq {
+	return foldPieces(s, lo, hi, func(s string, k int) string { return specPieceMDCode(s, k, spaces) })
+}
+
+//@ fold EscMDCode piece specPieceMDCode
+
 //@ func markdownCodeBlockEscape
 //@   props C05 C13 C26
 //@   opt writerprop C13
@@ -255,9 +468,20 @@ func EscHTML(s string, lo, hi int) bseq { return foldPieces(s, lo, hi, specPiece
 //@   ensures[C13] result != nil ==> wfailed(w) && result == werr(w)
 //@   ensures[C13] result == nil ==> !wfailed(w)
 //@   ensures[C13] wonly(w)
+//@   ensures[C26] result == nil ==> wout(w) == cat(old(wout(w)), EscMDCode(s, 0, len(s), spaces))
+//@   split 0, last, len(s)
 //@   loop 0
 //@     invariant 0 <= last && last <= i && i <= len(s)
+//@     invariant i == 0 || i == len(s) || !(s[i-1] == '\n' && s[i] == '\r')
 //@     invariant[C13] !wfailed(w) && wonly(w)
+//@     invariant[C26] wout(w) == cat(old(wout(w)), EscMDCode(s, 0, last, spaces))
+//@     invariant[C26] EscMDCode(s, last, i, spaces) == sub(s, last, i)
+//@     split 0, last, i+1; last, i, i+1; 0, last, i+1+1; last, i, i+1+1; i, i+1, i+1+1
+//@     hint cat(sub(s, last, i), sub(s, i, i+1)) when i < len(s)
+//@     hint cat(sub(s, last, i), cat(sub(s, i, i+1), sub(s, i+1, i+1+1))) when i+1 < len(s)
+//@     cases s[i] == '\n'
+//@     cases i+1 < len(s) && s[i+1] == '\r'
+//@     cases spaces
 //@     decreases len(s) - i
 
 // ---------------------------------------------------------------------------
@@ -773,6 +997,28 @@ func wkey(w any) int { return 0 }
 //@   props C05
 //@   panics allowed
 
+// Markdown text (untrusted values, allowHTML == false): every ASCII punctuation
+// character that can open or close a Markdown or HTML construct is preceded by a
+// backslash (CommonMark 2.4 "Backslash escapes"), and a space or tab that starts
+// or ends the value or is followed by another becomes U+00A0 so that it can
+// neither indent a line into a code block nor form a hard line break.
+func specPieceMD(s string, k int) string {
+	switch s[k] {
+	case '\\', '`', '*', '_', '{', '}', '[', ']', '(', ')', '#', '+', '-', '=', '.', '!', '|', '>', '~', '<', '&':
+		return "\\" + s[k:k+1]
+	case ' ', '\t':
+		if 0 < k && k < len(s)-1 && s[k+1] != ' ' && s[k+1] != '\t' {
+			return ""
+		}
+		return "\u00a0"
+	}
+	return ""
+}
+
+func EscMD(s string, lo, hi int) bseq { return foldPieces(s, lo, hi, specPieceMD) }
+
+//@ fold EscMD piece specPieceMD
+
 // markdownEscape: the errors "not closed HTML comment"/"not closed CDATA
 // section" are not writer errors, hence the weaker first postcondition.
 //@ func markdownEscape
@@ -781,9 +1027,20 @@ func wkey(w any) int { return 0 }
 //@   requires !wfailed(w)
 //@   ensures[C13] wfailed(w) ==> result != nil && result == werr(w)
 //@   ensures[C13] wonly(w)
+//@   ensures[C26] !allowHTML ==> (result != nil ==> wfailed(w))
+//@   ensures[C26] !allowHTML && result == nil ==> wout(w) == cat(old(wout(w)), EscMD(s, 0, len(s)))
 //@   loop 0
 //@     invariant 0 <= last && last <= i && last <= len(s) && i <= len(s)+1
+//@     invariant !allowHTML ==> i <= len(s)
 //@     invariant[C13] !wfailed(w) && wonly(w)
+//@     invariant[C26] !allowHTML && last == i ==> wout(w) == cat(old(wout(w)), EscMD(s, 0, i))
+//@     invariant[C26] !allowHTML && last != i ==> cat(wout(w), sub(s, last, i)) == cat(old(wout(w)), EscMD(s, 0, i))
+//@     split 0, i, i+1
+//@     hint cat(cat(wout(w), sub(s, last, i)), sub(s, i, i+1)) when last != i && i < len(s)
+//@     cases allowHTML
+//@     cases 0 < i && i < len(s)-1 && s[i+1] != ' ' && s[i+1] != '\t'
+//@     cases s[i] == ' ' || s[i] == '\t'; s[i] == '\\' || s[i] == '`' || s[i] == '*' || s[i] == '_' || s[i] == '{' || s[i] == '}' || s[i] == '[' || s[i] == ']' || s[i] == '(' || s[i] == ')' || s[i] == '#' || s[i] == '+' || s[i] == '-' || s[i] == '=' || s[i] == '.' || s[i] == '!' || s[i] == '|' || s[i] == '>' || s[i] == '~' || s[i] == '<' || s[i] == '&'
+//@     cases last == i
 //@     decreases len(s) - i
 //@   loop 1
 //@     invariant 0 <= last && last <= i && i <= len(s) && entry(i) <= i
